@@ -735,4 +735,20 @@ theorem mvp61_forwarding_witness :
   obtain ⟨d, _, _, _, e, f, g, _⟩ := Proofs.Mvp61Witness.obs_eq Proofs.Mvp61Witness.fwd_p2
   exact ⟨a, b, c, d, e, f, g⟩
 
+/-- **M61-defect-1 as a theorem on the tied model: an error inside the flush loop is swallowed.**  On
+`lw t0, 0(zero); div t1, t2, t0; beqz zero, l; nop; l:` with memory all zero the unpipelined machine and MVP-6.1 with two
+units end with the error (division by zero); MVP-6.1 with three units ends WITHOUT error (`offEnd` = Go's `nil`), reports
+0 cycles, and has executed 3 instructions — `cpu.go`: `if resp.err != nil { return 0, nil }` in the loop "executing
+previous unit cycles".  (So the disjunct `cycles = 0` of `mvp61_lower_bound` cannot be dropped.) -/
+theorem mvp61_error_in_flush_swallowed :
+    (Model.Seq.runMvp1 Proofs.Mvp61Witness.zeroApp ⟨Proofs.Mvp61Witness.ctxZ 64, 0⟩ 10).halt = some .err ∧
+    (Model.Mvp61.run Proofs.Mvp61Witness.zeroApp (Proofs.Mvp61Witness.ctxZ 64) 2 2 1000).halt = some .err ∧
+    (Model.Mvp61.run Proofs.Mvp61Witness.zeroApp (Proofs.Mvp61Witness.ctxZ 64) 3 3 1000).halt = some .offEnd ∧
+    (Model.Mvp61.run Proofs.Mvp61Witness.zeroApp (Proofs.Mvp61Witness.ctxZ 64) 3 3 1000).final.cycles = 0 ∧
+    (Model.Mvp61.run Proofs.Mvp61Witness.zeroApp (Proofs.Mvp61Witness.ctxZ 64) 3 3 1000).final.executed = 3 := by
+  obtain ⟨a, _⟩ := Proofs.Mvp61Witness.obsSeq_eq Proofs.Mvp61Witness.zero_seq
+  obtain ⟨b, _⟩ := Proofs.Mvp61Witness.obs_eq Proofs.Mvp61Witness.zero_p2
+  obtain ⟨c, d, _, e, _⟩ := Proofs.Mvp61Witness.obs_eq Proofs.Mvp61Witness.zero_p3
+  exact ⟨a, b, c, d, e⟩
+
 end Props.C12
